@@ -70,6 +70,8 @@ IMPORT_STYLES = [
     ('from pkgk.sub import dpkg', 'dpkg.dpf(8)'),
     ('import os.path', 'os.path.basename("a/b")'),
     ('import json as js', 'js.dumps([1])'),
+    ('import helper, other as oth2', 'helper.hg(1) + oth2.of(1)'),      # statements binding several names, some of them bound before
+    ('from helper import hf, HK as HK2', 'hf(1) + HK2().hm(1)'),
     ('from os import getcwd', 'bool(getcwd())'),            # callables implemented in C, imported by name
     ('from math import sqrt as root', 'root(4.0)'),
 ]
@@ -97,9 +99,12 @@ DEFS = [
 PRELUDE = 'import asyncio\nimport functools\nimport inspect\ntry:\n    profile\nexcept NameError:\n    def profile(f):\n        return f\n'
 
 
-def gen_program(rng, module_mode=False):
+def gen_program(rng, module_mode=False, force_imports=None):
     futs = rng.sample(FUTURES, rng.below(3)) if rng.chance(1, 2) else []
     imps = rng.sample(IMPORT_STYLES, rng.below(5) + 1)
+    if force_imports:
+        imps = [i for i in IMPORT_STYLES if i[0] in force_imports]
+        imps.sort(key=lambda i: force_imports.index(i[0]))
     # a star import makes `hf`, `hg` … visible: keep the calls consistent by importing helper names only once per style
     defs = rng.sample(DEFS, rng.below(6) + 2)
     if not any(d[0].startswith('def gen(') for d in defs):
